@@ -127,6 +127,9 @@ theorem step_untouched {c : Cfg} (h : CInv c) (x : Path)
     (∀ (i : Nat) (t : Wr), (step c ch).ws[i]? = some t → t.k ≠ x) := by
   cases ch with
   | tick => exact ⟨rfl, hx⟩
+  | r i =>
+      simp only [step]
+      cases c.rs[i]? <;> exact ⟨rfl, hx⟩
   | gcList cands =>
       simp only [step]
       split
